@@ -13,7 +13,10 @@
 (* that serde_derive and ts-rs accept at compile time (the domain of the   *)
 (* wire-format properties) - it transcribes the compile-time rejections.   *)
 (*                                                                         *)
-(* program == [kind, repr, cattrs, shape, fields, variants]                *)
+(* program == [kind, repr, cattrs, shape, fields, variants, garg]          *)
+(*   garg    "" or the argument token a generic program `P<T>` is          *)
+(*           instantiated at; its fields may then use the parameter tokens *)
+(*           of that argument (Cfg.gen[..].toks, e.g. "opt_T@i32")         *)
 (*   kind    "struct" | "enum"                                             *)
 (*   repr    "ext" | "int" | "adj" | "unt"        (enums)                  *)
 (*   cattrs  sequence of attribute tokens                                  *)
@@ -42,21 +45,28 @@ IsNamed(shape) == shape \in {"named", "named0", "struct1", "struct2"}
 VARIABLES prog, stage
 vars == <<prog, stage>>
 
-Empty == [kind |-> "", repr |-> "", cattrs |-> <<>>, shape |-> "", fields |-> <<>>, variants |-> <<>>]
+Empty == [kind |-> "", repr |-> "", cattrs |-> <<>>, shape |-> "", fields |-> <<>>, variants |-> <<>>, garg |-> ""]
+\* Cfg.gen: sequence of [arg, toks]: the generic instantiations of the slice (empty: no generic programs)
+GenChoices == {[arg |-> "", toks |-> <<>>]} \cup S(Cfg.gen)
+GenOf(g) == IF g = "" THEN <<>> ELSE (CHOOSE x \in S(Cfg.gen) : x.arg = g).toks
+\* the type alphabet of the next field: the slice's tokens plus the parameter tokens of the program's argument
+Tys1(p) == S(Cfg.tys) \cup S(GenOf(p.garg))
+Tys2(p) == S(Cfg.tys2)                     \* (the parameter is used by the first field; the second stays in the small alphabet)
+IsParamTok(p, ty) == ty \in S(GenOf(p.garg))
 Init == prog = Empty /\ stage = "start"
 
 Start == /\ stage = "start"
-         /\ \E k \in S(Cfg.kinds), ca \in S(Cfg.cattrsets) :
+         /\ \E k \in S(Cfg.kinds), ca \in S(Cfg.cattrsets), g \in GenChoices :
               IF k = "struct"
               THEN \E sh \in S(Cfg.shapes) :
-                     /\ prog' = [Empty EXCEPT !.kind = k, !.cattrs = ca, !.shape = sh]
+                     /\ prog' = [Empty EXCEPT !.kind = k, !.cattrs = ca, !.shape = sh, !.garg = g.arg]
                      /\ stage' = IF Arity(sh) = 0 THEN "done" ELSE "fields"
               ELSE \E r \in S(Cfg.reprs) :
-                     /\ prog' = [Empty EXCEPT !.kind = k, !.cattrs = ca, !.repr = r]
+                     /\ prog' = [Empty EXCEPT !.kind = k, !.cattrs = ca, !.repr = r, !.garg = g.arg]
                      /\ stage' = "variants"
 
 AddFieldStruct == /\ stage = "fields" /\ prog.kind = "struct"
-                  /\ \E ty \in S(IF prog.fields = <<>> THEN Cfg.tys ELSE Cfg.tys2),
+                  /\ \E ty \in (IF prog.fields = <<>> THEN Tys1(prog) ELSE Tys2(prog)),
                         fa \in S(IF prog.fields = <<>> THEN Cfg.fattrsets ELSE Cfg.fattrsets2) :
                        prog' = [prog EXCEPT !.fields = Append(@, [ty |-> ty, attrs |-> fa])]
                   /\ stage' = IF Len(prog.fields) + 1 = Arity(prog.shape) THEN "done" ELSE "fields"
@@ -68,7 +78,7 @@ AddVariant == /\ stage = "variants" /\ Len(prog.variants) < Cfg.maxvariants
 
 AddFieldVariant == /\ stage = "vfields"
                    /\ LET n == Len(prog.variants) v == prog.variants[n] IN
-                      /\ \E ty \in S(IF v.fields = <<>> THEN Cfg.tys ELSE Cfg.tys2),
+                      /\ \E ty \in (IF v.fields = <<>> THEN Tys1(prog) ELSE Tys2(prog)),
                             fa \in S(IF v.fields = <<>> THEN Cfg.fattrsets ELSE Cfg.fattrsets2) :
                            prog' = [prog EXCEPT !.variants[n].fields = Append(@, [ty |-> ty, attrs |-> fa])]
                       /\ stage' = IF Len(v.fields) + 1 = Arity(v.shape) THEN "variants" ELSE "vfields"
@@ -100,7 +110,14 @@ VariantOK(v, repr) ==
 
 UntaggedLast(vs) == \A i, j \in DOMAIN vs : (i < j /\ Has(vs[i].attrs, "untagged")) => Has(vs[j].attrs, "untagged")
 
-WellFormed ==
+AllFields == IF prog.kind = "struct" THEN prog.fields
+             ELSE LET RECURSIVE Cat(_)
+                      Cat(i) == IF i > Len(prog.variants) THEN <<>> ELSE prog.variants[i].fields \o Cat(i + 1)
+                  IN Cat(1)
+\* rustc: a type parameter has to be used
+GenericOK == prog.garg = "" \/ \E i \in DOMAIN AllFields : IsParamTok(prog, AllFields[i].ty)
+
+WellFormedBody ==
   IF prog.kind = "struct"
   THEN /\ FieldsOK(prog.fields, IsNamed(prog.shape))
        /\ (Has(prog.cattrs, "tag") \/ Has(prog.cattrs, "rename_all") \/ Has(prog.cattrs, "optional_fields")) => IsNamed(prog.shape)
@@ -112,6 +129,10 @@ WellFormed ==
        /\ (Has(prog.cattrs, "rename_all_fields") =>
              \A i \in DOMAIN prog.variants : prog.variants[i].shape # "named0")                   \* ts-rs: rename_all on an empty struct
        /\ (prog.repr = "unt" => \A i \in DOMAIN prog.variants : ~Has(prog.variants[i].attrs, "untagged"))
+
+WellFormed ==
+  /\ GenericOK
+  /\ WellFormedBody
 
 Emit == (stage = "done" /\ WellFormed) => PrintT(<<"CASE", ToJson(prog)>>)
 =============================================================================
